@@ -49,6 +49,36 @@ class Runner:
             raise CheckError('ANCHOR-MISSING: no facts for crate %s in config %s' % (name, cfg))
         return cs[0]
 
+    def matrix(self):
+        """thorough tier: yield (config name, config dict, tonic Crate) for every matrix configuration"""
+        for name, cfg in extract.matrix_configs().items():
+            try:
+                cr = self.crate('tonic', name, cfg)
+            except Exception as e:  # extraction failure in one configuration is itself a finding for the rules using it
+                self.bad('%s.R0' % self.prop, 'matrix:%s:extraction' % name, '', str(e)[:600], kind='ANCHOR-MISSING')
+                continue
+            yield name, cfg, cr
+
+    def selftest(self):
+        """thorough tier: run this property's seeded mutants (selftest/mutants.py and seeded/*/patch.diff) on scratch copies and
+        record killed / weak in the evidence.  Informational: never changes the verdict on /repo."""
+        import subprocess
+        if os.environ.get('VERIF_NO_SELFTEST') or self.repo != '/repo':
+            return
+        try:
+            r = subprocess.run([sys.executable, os.path.join(self.verif, 'tools', 'selftest.py'), '--props', self.prop, '--json', os.path.join(self.verif, '.cache', 'selftest_%s.json' % self.prop), '--seeded'],
+                               cwd=self.verif, stdout=subprocess.PIPE, stderr=subprocess.STDOUT, text=True, timeout=3600, env=dict(os.environ, VERIF_NO_SELFTEST='1'))
+            with open(os.path.join(self.verif, '.cache', 'selftest_%s.json' % self.prop)) as fh:
+                res = json.load(fh)
+            self.selftest_result = res
+            for x in res:
+                line = 'selftest %s: %s — %s' % (x['id'], x['status'], x.get('what', x.get('why', '')))
+                self.note(line)
+                if x['status'] == 'WEAK':
+                    print('SELFTEST-WEAK rule=%s mutant=%s' % (self.prop, x['id']))
+        except Exception as e:
+            self.note('selftest could not run: %s' % e)
+
     def all_crates(self, cfg='full'):
         """every crate of a config (loads everything: ~50 MB for full)"""
         key = (cfg, '*')
@@ -215,7 +245,8 @@ class Runner:
                 'exhaustive': bool(meta.get('exhaustive', False)),
                 'known_findings_hit': [o['key'] for o, _ in known_hits],
                 'violating_instances': [o['key'] for o in violations][:40],
-                'notes': self.notes[:40],
+                'notes': self.notes[:80],
+                'selftest': getattr(self, 'selftest_result', None),
                 'checker_cmd': './check %s --tier %s' % (self.prop, self.tier),
                 'trusted_base': ['rustc nightly MIR construction and trait resolution', 'engine/factgen serialisation', 'rules/mirlib.py'],
             },
